@@ -40,6 +40,10 @@ def run(spec):
     cls.append('%s:%s' % (tag, 'designs' if recs else 'empty'))
     n_designs += len(recs)
     must = sp.must & set(sp.geos)
+    if sp.reject and recs:
+      # the table lists a geo that may not be excluded but has no rows in the panel: no design can place it
+      viol.append(('C01:%s:must-include-missing' % tag, dict(det, pos=0, note='a non-excludable geo of the table is absent from the data, yet designs are returned',
+                                                             T=sorted(recs[0]['T']), C=sorted(recs[0]['C']))))
     for pos, r in enumerate(recs):
       probs = sp.legal(r['T'], r['C'])
       missing = sorted(must - (r['T'] | r['C']))
